@@ -37,6 +37,10 @@ def run(check):
     # wrapper descriptors rebuild themselves around safe_get(self.__wrapped__, instance, owner) (shared with C13.R2)
     from ..rules_wrappers import rule_descriptor_rebinding
     check.run_rule('C18.R6', lambda c: rule_descriptor_rebinding(c, 'C18.R6'))
+    # the as_forged descriptor answers for the object it was looked up on -- decided by `instance is None`, not by the truth value of
+    # the instance (a container that is empty now and filled later would change its signature between retrievals); shared with C13.R6
+    from ..rules_wrappers import rule_as_forged_get
+    check.run_rule('C18.R6b', lambda c: rule_as_forged_get(c, 'C18.R6'))
     from ..rules_modifiers import rule_reprepare_invalidates_cache
     check.run_rule('C18.R7', lambda c: rule_reprepare_invalidates_cache(c, 'C18.R7'))
     check.run_rule('C18.R1b', lambda c: rule_recursion_guard_emptied(c, 'C18.R1'))
